@@ -131,6 +131,28 @@ def cdec(outcome_or_list):
     return out
 
 
+def holds(decisions_or_cd, atom):
+    """1 / 0 if the trace decided the comparison `atom` (printed form) true / false, None if it did not decide it. Recognises every spelling
+    `canon` unifies and, for a comparison with a constant that canonicalises to Eq(X, k), an integer `match X { k => .., _ => .. }`
+    (recorded as the decision X = k or X ∉ {..})."""
+    cd = decisions_or_cd if isinstance(decisions_or_cd, dict) else cdec(decisions_or_cd)
+    k_, v_ = canon(atom, 1)
+    got = cd.get(k_)
+    if got in (0, 1):
+        return int(got == v_)
+    m = re.fullmatch(r'Eq\((.*), (\d+)\)', k_)
+    if m and m.group(1) in cd:
+        x, k = cd[m.group(1)], int(m.group(2))
+        eq = None
+        if isinstance(x, int) and not isinstance(x, bool):
+            eq = int(x == k)
+        elif isinstance(x, tuple) and x[0] == 'ne' and k in set(x[1]):
+            eq = 0
+        if eq is not None:
+            return int(eq == v_)
+    return None
+
+
 def cwant(pairs):
     return dict(canon(a, v) for a, v in pairs)
 
